@@ -99,6 +99,9 @@ type Opts struct {
 	Threshold    uint64 // write-cache batch threshold (default 40)
 	RmBatch      int    // GC remover batch size (default 100)
 	RemoverTicks bool   // let the GC remover timer fire (otherwise its interval never elapses... it is still armed once)
+	// EngineExpiredCallback installs the engine's handling of expired objects at shard level:
+	// skip locked objects, delete the others (mirrors StorageEngine.processExpiredObjects).
+	EngineExpiredCallback bool
 }
 
 type World struct {
@@ -168,6 +171,16 @@ func New(s *sched.S, root string, o Opts) (*World, error) {
 		shard.WithGCRemoverSleepInterval(time.Hour),
 		shard.WithContainerPayments(payments{}),
 	}
+	if o.EngineExpiredCallback {
+		opts = append(opts, shard.WithExpiredObjectsCallback(func(addrs []oid.Address) {
+			for _, a := range addrs {
+				if locked, err := w.Sh.IsLocked(a); err == nil && locked {
+					continue
+				}
+				w.Sh.Delete(a.Container(), []oid.ID{a.Object()})
+			}
+		}))
+	}
 	w.Sh = shard.New(opts...)
 	if err := w.Sh.Open(); err != nil {
 		return nil, err
@@ -231,8 +244,29 @@ func Tombstone(i, target int, exp uint64) *object.Object {
 	o.AssociateDeleted(OID(target))
 	o.SetPayloadChecksum(checksum.NewSHA256(sha256.Sum256(nil)))
 	if exp > 0 {
-		o.SetAttributes(object.NewAttribute(object.AttributeExpirationEpoch, fmt.Sprint(exp)))
+		o.SetAttributes(append(o.Attributes(), object.NewAttribute(object.AttributeExpirationEpoch, fmt.Sprint(exp)))...)
 	}
+	return o
+}
+
+// Lock builds lock #i protecting object #target, expiring at exp (0 = never).
+func Lock(i, target int, exp uint64) *object.Object {
+	o := object.New(Cnr, owner)
+	o.SetID(OID(i))
+	v := version.Current()
+	o.SetVersion(&v)
+	o.AssociateLocked(OID(target))
+	o.SetPayloadChecksum(checksum.NewSHA256(sha256.Sum256(nil)))
+	if exp > 0 {
+		o.SetAttributes(append(o.Attributes(), object.NewAttribute(object.AttributeExpirationEpoch, fmt.Sprint(exp)))...)
+	}
+	return o
+}
+
+// ObjExp is Obj with an expiration epoch.
+func ObjExp(i, n int, exp uint64) *object.Object {
+	o := Obj(i, n)
+	o.SetAttributes(append(o.Attributes(), object.NewAttribute(object.AttributeExpirationEpoch, fmt.Sprint(exp)))...)
 	return o
 }
 
